@@ -1,7 +1,18 @@
 #!/bin/bash
-# MANIFEST.setup_cmd — offline; builds /repo's dependency rlibs with Verus's toolchain.
+# MANIFEST.setup_cmd — offline; builds /repo's dependency rlibs with Verus's toolchain and warms the replay crate's
+# dependency cache (both under /verif/.cache, both rebuilt on demand by the checks if missing).
 set -e
 HERE="$(cd "$(dirname "$0")/.." && pwd)"
 export PATH="$HOME/.cargo/bin:/usr/local/bin:$PATH"
 "$HERE/tools/build_vdeps.sh"
+python3 - <<PY || true
+import sys, tempfile, shutil
+sys.path.insert(0, "$HERE/tools")
+import witness
+sc = tempfile.mkdtemp(prefix='fpsetup.', dir='/var/tmp')
+try:
+    print('replay crate:', 'built' if witness.build_replayer('${VERIF_REPO:-/repo}', sc) else 'NOT built (will be retried by the checks)')
+finally:
+    shutil.rmtree(sc, ignore_errors=True)
+PY
 echo setup ok
